@@ -47,10 +47,19 @@ def gen_seed(rng):
     return rng.choice(["abc", "seed-1", "é", "0", "", " ", "run-a-001", "run-b-001"])
 
 
+def gen_seed_int(rng):
+    s = gen_seed(rng)
+    return s if isinstance(s, int) else 11
+
+
 def gen_consumer(rng):
     """A component that is handed a seed and must then follow CobaRandom(seed): SafeLearner sampling from a learner's PMF (optionally
     wrapped around another SafeLearner that is used as well), SequentialCB playing a PMF learner."""
-    k = weighted(rng, [("consumer_safe", 2), ("consumer_seqcb", 1)])
+    k = weighted(rng, [("consumer_safe", 2), ("consumer_seqcb", 1), ("consumer_modstream", 1.5)])
+    if k == "consumer_modstream":
+        # the module-level generator is a CobaRandom(seed) too (coba.random.seed): what coba itself does in between - running an experiment,
+        # downloading a data set - must not change what the user draws from it afterwards
+        return [k, [weighted(rng, [(0, 1), (gen_seed_int(rng), 4)]), 2 + rng.randrange(3), weighted(rng, [("experiment", 2), ("openml_request", 1)])]]
     seed = weighted(rng, [(0, 2), (0.0, 1), (gen_seed(rng), 5)])
     if isinstance(seed, str):
         seed = 7
@@ -83,6 +92,29 @@ def do_consumer(call):
             sl.learn(None, act, 1.0, p)
         return out
     import coba as cb
+    if m == "consumer_modstream":
+        import coba.random as cr
+        seed, n, what = a
+        cr.seed(seed)
+        if what == "experiment":
+            cb.Experiment(cb.Environments(K.TaggedEnv("S", 3, 2)), [cb.RandomLearner(seed=1)]).run(quiet=True, seed=9)
+        else:
+            import types
+            import coba.environments.openml as O
+            from coba.context import CobaContext
+            old = (O.HttpSource, O.time, CobaContext.store.get("openml_semaphore"))
+            O.HttpSource = lambda url, **kw: types.SimpleNamespace(read=lambda: iter(["line"]))
+            O.time = types.SimpleNamespace(sleep=lambda s_: None, time=old[1].time)
+            CobaContext.store["openml_semaphore"] = object()       # (present in every worker of a multi-process experiment)
+            try:
+                list(O.OpenmlSource(data_id=1)._http_request("http://sim/x"))
+            finally:
+                O.HttpSource, O.time = old[0], old[1]
+                if old[2] is None:
+                    CobaContext.store.pop("openml_semaphore", None)
+                else:
+                    CobaContext.store["openml_semaphore"] = old[2]
+        return cr.randoms(n)
     seed, n = a
     rows = list(cb.SequentialCB(seed=seed, record=["action"]).evaluate(K.TaggedEnv("S", n, 3), K.PMFLearner("c")))
     return [r["action"] for r in rows]
@@ -91,6 +123,8 @@ def do_consumer(call):
 def consumer_expected(call):
     from coba.random import CobaRandom
     seed, n = call[1][0], call[1][1]
+    if call[0] == "consumer_modstream":
+        return CobaRandom(seed).randoms(n)
     g = CobaRandom(seed)
     return [g.choicew([0, 1, 2], _pmf(t))[0] for t in range(n)]
 
